@@ -574,7 +574,8 @@ Proof.
     match goal with |- match ?m ?w3 with _ => _ end => set (w3' := w3); assert (HF3 : relF m w3') end.
     { repeat fstep; try flem. }
     assert (Hp : prog w w3').
-    { eapply F_prog; [eapply F_trans; eauto|]. subst w3'. unfold prog, input_left. sk_simpl. rewrite Eo. cbn [List.length]. lia. }
+    { assert (H2 : F w w2) by (eapply F_trans; eauto). destruct H2 as [H2 _].
+      unfold prog, input_left in *. subst w3'. sk_simpl. rewrite Eo in H2. cbn [List.length] in H2. lia. }
     unfold rel in HF3.
     match goal with |- match ?x with _ => _ end => destruct x as [a w4|[why|] w4] end; auto.
     - intros _. apply prog_measure. eapply prog_F; eauto.
